@@ -12,6 +12,10 @@
   line-locality).  On the pinned lexer this was false: `HL.Props.C03Cex.pinned_crlf_line_ends_counterexample`.
 -/
 import HL.Lemmas.LexCrlfFile
+import HL.Lemmas.ParserShift
+import HL.Lemmas.GCoreCrlf
+import HL.Lemmas.ParseGCore
+import HL.Model.Pipeline
 namespace HL.Props.C03
 open HL HL.Lex
 
@@ -52,6 +56,80 @@ theorem crlf_is_lf_one_line (C : Classes) (z : Z) (s : Bytes) (hz : z.after = s 
     simp only [Z.crx, hz, crx_append]
   rw [this]
   exact lexS_crx C _ hol (Nat.le_refl _)
+
+/-! ### the parser: the tree and the errors of the CRLF text are those of the LF text -/
+
+open HL.Parser (crlfShift crlfShift_pos crShift_eq_tok)
+
+/-- **CRLF is LF, for the whole of `parser.Parse`.**  For every byte string `t` without a carriage
+    return — any text at all: journals inside and outside grammar G, malformed text, invalid
+    UTF-8 — and every classifier: parsing `t` with every LF replaced by CR LF yields the syntax
+    tree and the error list of `t` itself, with every position moved by `crlfShift` (same lines
+    and columns, offsets grown by the number of preceding line ends) and nothing else changed:
+    the same transactions, postings, amounts, comments, tags and directives, the same error
+    messages.  In particular a journal parses silently with LF line ends iff it does with CRLF
+    line ends. -/
+theorem crlf_parse_is_lf (C : Classes) (t : Bytes) (h : (0x0D : UInt8) ∉ t) :
+    HL.Pipeline.parseText C (toCrlf t) =
+      (crlfShift.journal (HL.Pipeline.parseText C t).1, (HL.Pipeline.parseText C t).2.map crlfShift.perr) := by
+  unfold HL.Pipeline.parseText
+  rw [crlf_is_lf C t h]
+  have : (lexAll C t).map crShift = (lexAll C t).map crlfShift.tok :=
+    List.map_congr_left fun x _ => crShift_eq_tok x
+  rw [this]
+  exact HL.Parser.parseTokens_shift _ _ crlfShift _
+
+/-- silently with LF ⇔ silently with CRLF -/
+theorem crlf_same_errors (C : Classes) (t : Bytes) (h : (0x0D : UInt8) ∉ t) :
+    (HL.Pipeline.parseText C (toCrlf t)).2 = [] ↔ (HL.Pipeline.parseText C t).2 = [] := by
+  rw [crlf_parse_is_lf C t h]
+  simp
+
+/-! ### the core grammar, printed with CRLF line ends -/
+
+/-- **C03 for the core grammar with CRLF line ends.**  Every well-formed `GCore` journal — any
+    number of transactions and postings, names, words and digit strings of any length — printed
+    with `"\r\n"` line ends (`GCore.printC true`) parses without a single error to exactly the
+    tree that text was written from (`GCore.expectedC true`: the nodes, lines and columns of the
+    LF tree, every offset counted in the CRLF text), for every classifier that gets the ASCII
+    letters right.  Composition of `C03_faithful_core` with `crlf_parse_is_lf`. -/
+theorem C03_faithful_core_crlf_classes (C : Classes) (hC : GCore.ClassesOk C = true) (j : GCore.Journal)
+    (h : GCore.WF j = true) :
+    HL.Pipeline.parseText C (GCore.printC true j) = (GCore.expectedC true j, []) := by
+  rw [GCore.printC_true j h, crlf_parse_is_lf C _ (GCore.print_noCR j h), GCore.expectedC_true]
+  have : HL.Pipeline.parseText C (GCore.print j) = (GCore.expected j, []) := by
+    unfold HL.Pipeline.parseText
+    rw [GCore.lexAll_print C hC j h]
+    exact GCore.parseTokens_toks _ j h
+  rw [this]
+  rfl
+
+theorem C03_faithful_core_crlf (j : GCore.Journal) (h : GCore.WF j = true) :
+    HL.Pipeline.parseText Classes.go (GCore.printC true j) = (GCore.expectedC true j, []) :=
+  C03_faithful_core_crlf_classes Classes.go (by decide +kernel) j h
+
+/-- With LF line ends `printC` / `expectedC` are `print` / `expected`: the statement above for
+    `cr = false` is `C03_faithful_core`. -/
+theorem printC_expectedC_false (j : GCore.Journal) :
+    GCore.printC false j = GCore.print j ∧ GCore.expectedC false j = GCore.expected j :=
+  ⟨GCore.printC_false j, GCore.expectedC_false j⟩
+
+/-- non-vacuity: a two-transaction journal with every optional part, by evaluation of the model -/
+example :
+    let j : GCore.Journal := [
+      { date := ⟨[50, 48, 50, 52], [48, 49], [49, 53]⟩
+        words := [[103, 114, 111, 99, 101, 114, 121], [115, 116, 111, 114, 101]]
+        postings := [
+          ⟨[[97, 115, 115, 101, 116, 115], [99, 97, 115, 104]], some ⟨true, [49, 50], some [53, 48], some [85, 83, 68]⟩⟩,
+          ⟨[[101, 120, 112, 101, 110, 115, 101, 115], [102, 111, 111, 100], [120]], none⟩] },
+      { date := ⟨[50, 48, 50, 52], [48, 50], [48, 49]⟩
+        words := [[114, 101, 110, 116]]
+        postings := [
+          ⟨[[97], [98]], some ⟨false, [49, 50, 48, 48], none, none⟩⟩,
+          ⟨[[99], [100]], some ⟨false, [48], some [49, 50, 53], some [69]⟩⟩] }]
+    GCore.WF j = true ∧ (GCore.printC true j).length = (GCore.print j).length + 7 ∧
+      HL.Pipeline.parseText Classes.go (GCore.printC true j) = (GCore.expectedC true j, []) := by
+  decide +kernel
 
 /-- Non-vacuity, evaluated by the kernel: a three-line journal with a comment, a code, a quoted
     commodity and a line without a final line end. -/
